@@ -888,8 +888,11 @@ def check_C06(tier):
     # bulk loads that put more entries into memory than maxsize, then misses (the random policy removes exactly one)
     scenario_random(run, ['rr', 'lru', 'lfu', 'mru'], ['std', 'safe'], ['dictarch', 'file'], 600 if tier == 'thorough' else 120, 30,
                     maxsizes=(1, 2), purges=(False,), nx=6)
-    # long call-only walks: the LRU queue compaction (more than 10*maxsize recorded uses) must be crossed
     t = tier == 'thorough'
+    # cache keys that are false in a boolean test (0, '', b'', ()): a purely variadic function under flat raw / textual keymaps
+    scenario_random(run, ['lru', 'lfu', 'mru', 'rr'], ['std', 'safe'], ['plain', 'dictarch', 'file'], 600 if t else 120, 28,
+                    maxsizes=(1, 2, 3), purges=(False,), variants=('falsykey',), keymaps=[('raw', True, False), ('str', True, False)])
+    # long call-only walks: the LRU queue compaction (more than 10*maxsize recorded uses) must be crossed
     longs = []
     for alg in ('lru', 'mru', 'lfu'):
         for ms in (1, 2, 3):
